@@ -12,6 +12,8 @@ non-string values and the prefix maps. -/
 import XsdataModel.Proofs.C09Strip
 import XsdataModel.Proofs.C09Ws
 import XsdataModel.Proofs.C09Data
+import XsdataModel.Proofs.C09Ns
+import XsdataModel.Proofs.C09Xsi
 
 namespace Props.C09
 open Py Xs.Bind Proofs.C09
@@ -132,5 +134,100 @@ example : allSpace Data.benv.py [' ', '\n', '\t'] = true := by decide
 example : [TypeRef.prim .int, .prim .bool].all strips = true := by decide
 example : deserialize Data.benv (" \n".toList ++ "42".toList ++ "\t".toList) [.prim .int] [] = some (.int 42) := by decide
 example : converts Data.benv Data.vA.toVarCore "42".toList [] = true := by decide
+
+/-! ## 4. prefix maps -/
+
+/-- **prefix_invariant_partial**: when no class of the universe has a QName typed field
+(`ctxNoQ`), no element carries xsi:type and no attribute value has the form `p:rest` with
+`p` a prefix declared at that element (`treeOk`, checked on both spellings), the result of
+parsing does not depend on the prefix maps at all: two documents that are equal after
+erasing every prefix map parse to the same result (objects, warnings and errors). -/
+theorem prefix_invariant_partial (e : BEnv) (Γ : Ctx) (cfg : ParserConfig) (hΓ : ctxNoQ Γ = true) (c : ClassId)
+    (t t' : Tree) (ht : treeOk t = true) (ht' : treeOk t' = true) (h : eraseNs t = eraseNs t') :
+    parseRoot e Γ cfg c t = parseRoot e Γ cfg c t' := by
+  rw [parseRoot_eraseNs e Γ cfg hΓ c t ht, parseRoot_eraseNs e Γ cfg hΓ c t' ht', h]
+
+/-- the same for a subtree parsed by any node whose metadata satisfies the side conditions -/
+theorem prefix_invariant_node (e : BEnv) (Γ : Ctx) (cfg : ParserConfig) (hΓ : ctxNoQ Γ = true) (node : Node) (t : Tree)
+    (hn : nodeOk node = true) (ht : treeOk t = true) :
+    parseNode e Γ cfg node t = parseNode e Γ cfg (Node.eraseNs node) (eraseNs t) :=
+  parseNode_eraseNs e Γ cfg hΓ node t hn ht
+
+-- non-vacuity: the example universe has no QName field; `<Plain a="7" b="v">…` under two prefix maps
+example : ctxNoQ Data.ctx = true := by decide
+example : treeOk Data.plainDoc = true := by decide
+example : treeOk Data.rootDocPP = true := by decide   -- `k="p:bar"` with only `pp` declared is fine
+
+/-- **xsiType_prefix_invariant**: `ParserUtils.xsi_type` depends on the prefix of a
+lexical QName `p:l` only through the namespace the prefix is bound to: another prefix
+`p'` bound (in another map) to the same non-empty URI gives the same result. -/
+theorem xsiType_prefix_invariant (e : BEnv) (attrs attrs' : List (QN × Str)) (n n' : NsMap) (p p' l u : Str)
+    (ha : (attrs.find? (·.1 = xsiType)).map (·.2) = some (p ++ ':' :: l))
+    (ha' : (attrs'.find? (·.1 = xsiType)).map (·.2) = some (p' ++ ':' :: l))
+    (hp : lexPrefixed e p l = true) (hp' : lexPrefixed e p' l = true)
+    (hn : n.get (some p) = some u) (hn' : n'.get (some p') = some u) (hu : u ≠ []) :
+    xsiTypeOf e attrs n = xsiTypeOf e attrs' n' := by
+  rw [xsiTypeOf_value e attrs n _ ha (by simp), xsiTypeOf_value e attrs' n' _ ha' (by simp),
+    resolveQName_prefixed e p l u n hp hn hu, resolveQName_prefixed e p' l u n' hp' hn' hu]
+
+/-- **xsiType_default_invariant**: default-namespace toggling: the unprefixed `l` under
+a default namespace `u` and `p:l` with `p` bound to `u` give the same xsi:type. -/
+theorem xsiType_default_invariant (e : BEnv) (attrs attrs' : List (QN × Str)) (n n' : NsMap) (p l u : Str)
+    (ha : (attrs.find? (·.1 = xsiType)).map (·.2) = some l)
+    (ha' : (attrs'.find? (·.1 = xsiType)).map (·.2) = some (p ++ ':' :: l))
+    (hl : lexLocal e l = true) (hp : lexPrefixed e p l = true)
+    (hn : n.get none = some u) (hn' : n'.get (some p) = some u) (hu : u ≠ []) :
+    xsiTypeOf e attrs n = xsiTypeOf e attrs' n' := by
+  have hl0 : l ≠ [] := by
+    intro hh; subst hh; simp [lexLocal] at hl
+  rw [xsiTypeOf_value e attrs n _ ha hl0, xsiTypeOf_value e attrs' n' _ ha' (by simp),
+    resolveQName_local e l u n hl hn hu, resolveQName_prefixed e p l u n' hp hn' hu]
+
+-- non-vacuity: `xsi:type="a:T"` with a ↦ urn:x  vs  `xsi:type="b:T"` with b ↦ urn:x  vs  `xsi:type="T"` under xmlns="urn:x"
+example : lexPrefixed Data.benv "a".toList "T".toList = true := by decide
+example : lexLocal Data.benv "T".toList = true := by decide
+example : (xsiTypeOf Data.benv [(xsiType, "a:T".toList)] [(some "a".toList, "urn:x".toList)]).toOption =
+    some (some "{urn:x}T".toList) := by decide
+example : (xsiTypeOf Data.benv [(xsiType, "T".toList)] [(none, "urn:x".toList)]).toOption =
+    some (some "{urn:x}T".toList) := by decide
+
+/-! ## 5. the excluded region: name-like values of wildcard attributes -/
+
+mutual
+/-- no element of the tree carries xsi:type -/
+def treeNoXsi : Tree → Bool
+  | .node _ a _ _ c _ => noXsi a && treeNoXsiL c
+def treeNoXsiL : List Tree → Bool
+  | [] => true
+  | t :: ts => treeNoXsi t && treeNoXsiL ts
+end
+
+/-- Full-strength statement (false of the model and of the code): for a universe without
+QName typed fields and documents without xsi:type, the prefix maps do not matter. -/
+def prefix_invariant : Prop :=
+  ∀ (e : BEnv) (Γ : Ctx) (cfg : ParserConfig) (c : ClassId) (t t' : Tree),
+    ctxNoQ Γ = true → treeNoXsi t = true → treeNoXsi t' = true → eraseNs t = eraseNs t' →
+      parseRoot e Γ cfg c t = parseRoot e Γ cfg c t'
+
+/-- **prefix_invariant_counterexample**: `ParserUtils.parse_any_attribute` rewrites every
+wildcard attribute value `p:rest` whose `p` is a declared prefix to `{uri}rest`.
+`<Root xmlns:p="urn:p" k="p:bar"/>` and `<Root xmlns:pp="urn:p" k="p:bar"/>` (the unrelated,
+unused prefix renamed) are parsed to objects whose `attrs` dictionaries are
+`{"k": "{urn:p}bar"}` and `{"k": "p:bar"}`.  (Known finding c09-any-attr-prefix.) -/
+theorem prefix_invariant_counterexample : ¬ prefix_invariant := by
+  intro h
+  have := h Data.benv Data.ctx {} "Root".toList Data.rootDocP Data.rootDocPP
+    (by decide) (by decide) (by decide) (by rfl)
+  have h2 := congrArg (fun r => Data.attrsOf r "attrs") this
+  revert h2
+  decide
+
+/-- what the two spellings are parsed to -/
+theorem prefix_invariant_witness :
+    Data.attrsOf (parseRoot Data.benv Data.ctx {} "Root".toList Data.rootDocP) "attrs"
+      = some [("k".toList, "{urn:p}bar".toList)] ∧
+    Data.attrsOf (parseRoot Data.benv Data.ctx {} "Root".toList Data.rootDocPP) "attrs"
+      = some [("k".toList, "p:bar".toList)] := by
+  decide
 
 end Props.C09
